@@ -187,3 +187,9 @@ CLAIMED["C14"]["text"] += " Mask mode frac = 0."
 CLAIMED["C16"]["text"] += " Axis ratio 0.997 (nearly circular)."
 CLAIMED["C17"]["text"] += " Translations that start AT a pole and translations whose destination IS a pole; the reference destination is computed in vector form."
 CLAIMED["C19"]["text"] += " Elliptical variant: every group chain-connected under the distance it was built with (independent separations for sky_dist), also with one zero-size source."
+# ---- refinements after wave 12 ----
+CLAIMED["C07"]["text"] += " Timers: a finite timeout on a synchronisation wait is an environment event - every armed timed wait is made to expire once before its condition holds (deviation bound 1) and the call must still return the same maps."
+CLAIMED["C10"]["text"] += " History: one Region object masks a table, is extended (union, union without renormalisation, add_circles) and masks the table again."
+CLAIMED["C13"]["text"] += " Sources of both signs peaking on the first / last row or column of the image."
+CLAIMED["C14"]["text"] += " Sources centred less than half a pixel beyond each image edge (four more position classes, 21 in all)."
+CLAIMED["C03"]["text"] += " The circular-input clause also with ratio 0.9 / 1.3."
